@@ -67,12 +67,12 @@ Definition guard_F2 (f : fixes) (b : backend) (expires : option Z) (dflt now : Z
   negb (fx2 f) && is_mem b &&
   match http_lifetime expires dflt now with Some l => l <=? 0 | None => false end.
 
-(** C10-F3: remote authorizer, rule-level `cache_ttl: 0s` over a mechanism
-    with caching enabled *)
+(** C10-F3: remote authorizer, rule-level `cache_ttl: 0s` (or a negative one)
+    over a mechanism with caching enabled: the rule-level value is ignored *)
 Definition guard_F3 (f : fixes) (m : mech) (conf rule : option Z) : bool :=
   negb (fx3 f) &&
   match m, rule with
-  | MRemote, Some r => (r =? 0) && (val (create_ttl m conf) >? 0)
+  | MRemote, Some r => (r <=? 0) && (val (create_ttl m conf) >? 0)
   | _, _ => false
   end.
 
